@@ -390,6 +390,34 @@ def decl_rule(syn, prop, rule="C07.R2"):
 
 # ------------------------------------------------------------------ C07.R1
 
+def impl_header_rule(syn, prop, rule="C16.R7"):
+    r = Result(rule, "the generated `impl<..>` header rebuilds every generic parameter from its parts (ident, bounds, lifetime, const type): no template interpolates a whole syn::GenericParam, whose tokens include `= default` (defaults are not allowed in impl headers, so the expansion would not compile)")
+    fn = syn.fn("generate_impl_block_header", "macros/src/lib.rs")
+    if fn is None:
+        r.fail(prop, "anchor-missing generate_impl_block_header", "not found")
+        return r
+    allowed = {"ident", "colon_token", "bounds", "lifetime", "const_token", "ty", "params", "type_args", "crate_rename", "where_bound"}
+    n = 0
+    for e in templates(fn):
+        ints = set(S.interpolations(e["tokens"]))
+        in_params = any(c["k"] == "let" and S.squash(c["pat"]) == "params" for c in e["ctx"])
+        if not in_params:
+            continue
+        n += 1
+        extra = ints - allowed
+        r.inst(fn=fn["qual"], where="%s:%s" % (fn["file"], e["line"]), interpolates=sorted(ints), ok=not extra)
+        if extra:
+            r.fail(prop, "impl-header-whole-param #%s" % "+#".join(sorted(extra)), "the impl header interpolates %s as a whole: a parameter default (`const N: usize = 4`, `T = i32`) would be copied into `impl<..>`, which rustc rejects" % sorted(extra),
+                   fn["file"], e["line"])
+    # defaults must not be destructured into the header either
+    for e in S.events(fn, "match"):
+        for a in e["arms"]:
+            if re.search(r"\bdefault\b", a["pat"]) and "params" in " ".join(S.squash(c.get("pat", "")) for c in e["ctx"] if c["k"] == "let"):
+                r.fail(prop, "impl-header-default", "a parameter default is bound while building the impl header", fn["file"], a["line"])
+    r.floor = 3
+    return r
+
+
 def generics_rule(syn, prop, rule="C07.R1"):
     r = Result(rule, "all emitters of the item's type parameters iterate the parameter list in source order; the list/visit emitters drop `concrete` parameters (contains_key filter) and the instantiating emitters replace them by the concrete type (get → None/Some arms); concrete maps of several #[ts] attributes are unioned")
     droppers = [("DerivedTS::name_with_generics", "macros/src/lib.rs"), ("DerivedTS::generate_generic_types", "macros/src/lib.rs"),
